@@ -15,6 +15,8 @@ pub enum Ev {
     Add(usize),
     NextId(usize),
     Join(usize, usize),
+    /// a destructive read data(v): never justified by a merge
+    Read(usize),
 }
 
 spec fn is_new(m0: Map<usize, usize>, m: Map<usize, usize>, r: usize) -> bool { m.contains_key(r) && !m0.contains_key(r) }
@@ -43,6 +45,7 @@ spec fn ev_ok(a: A, m0: Map<usize, usize>, m: Map<usize, usize>, s: Seq<Ev>, i: 
         Ev::Add(v) => 0 < i && s[i - 1] == Ev::NextId(v) && i + 1 < s.len() && (match s[i + 1] { Ev::Bind(_, y, _) => y == v, _ => false }),
         Ev::NextId(v) => i + 1 < s.len() && s[i + 1] == Ev::Add(v),
         Ev::Join(_, _) => true,
+        Ev::Read(_) => false,
     }
 }
 
